@@ -5,6 +5,7 @@ From Eino Require Import Proofs.Concat Proofs.ConcatRechunk Proofs.ConcatMsg Pro
 From Eino Require Import Proofs.ConcatOrder Proofs.ConcatOrderMsg Proofs.ConcatMsgSpec Proofs.ConcatUser.
 From Eino Require Import Proofs.ConcatKeyed Proofs.ConcatMsgMap.
 From Eino Require Import Proofs.ConcatSuffix Proofs.ConcatSuffixMsg Proofs.ConcatSuffixMap Proofs.ConcatAny Proofs.ConcatSplit.
+From Eino Require Import Model.ConcatStream Proofs.ConcatStream.
 From Coq Require Import Sorting.Sorted Sorting.Permutation.
 
 (* Every theorem quantifies over the registry [U] of concat functions registered by the
@@ -741,3 +742,100 @@ Proof.
   eexists. eexists. split; [vm_compute; reflexivity|]. split; [vm_compute; reflexivity|].
   split; vm_compute; reflexivity.
 Qed.
+
+(* ------------------------------------------------------------------ the reader in front: read errors *)
+
+(* Every stream-level entry point first drains its reader (concatStreamReader,
+   ConcatMessageStream): [stream_entry F items] is the entry point with concatenation [F] on
+   what the reader delivers, an item being a chunk or a read error (Model/ConcatStream.v).
+   A read error anywhere makes the call return that error, whatever the chunks are; without
+   one the entry point is the concatenation of the chunks. *)
+Theorem stream_read_error :
+  forall (A : Type) (F : list A -> res A) (l : list (sitem A)), In SErr l -> stream_entry F l = Err E_READ.
+Proof. exact @stream_entry_error. Qed.
+Print Assumptions stream_read_error.
+
+Theorem stream_without_read_error :
+  forall (A : Type) (F : list A -> res A) (vs : list A), stream_entry F (map SVal vs) = F vs.
+Proof. exact @stream_entry_vals. Qed.
+
+Theorem stream_items_total :
+  forall (U : UserFn) (L : UserLaw),
+    (forall l, stream_entry msg_stream l <> Panic) /\ (forall l, stream_entry msglist_stream l <> Panic) /\
+    (forall l, stream_entry mmap_stream l <> Panic) /\ (forall l, stream_entry concat_stream_any l <> Panic) /\
+    (forall l, (forall v, In v (svals l) -> is_nil v = false) -> stream_entry concat_stream l <> Panic).
+Proof.
+  intros U L. repeat split; intros l.
+  - apply stream_entry_no_panic, msg_stream_no_panic.
+  - apply stream_entry_no_panic, msglist_stream_no_panic.
+  - apply stream_entry_no_panic, mmap_stream_no_panic.
+  - apply stream_entry_no_panic, concat_stream_any_no_panic.
+  - intros H. unfold stream_entry. destruct (drain l) as [vs|] eqn:E; [|discriminate].
+    apply concat_stream_total. rewrite <- (drain_svals l vs E). exact H.
+Qed.
+Print Assumptions stream_items_total.
+
+(* Re-chunking with read errors in the picture: concatenate the items of ANY segment first
+   (that fails when the segment holds a read error), put the result back as one chunk, run
+   the entry point again: same value as on the original items, or both fail. *)
+Theorem stream_items_segment :
+  forall (U : UserFn) (L : UserLaw) (LS : UserLawS),
+    (forall pre seg post, seg <> [] ->
+       match stream_entry msg_stream seg with
+       | Ok c => match stream_entry msg_stream (pre ++ SVal c :: post), stream_entry msg_stream (pre ++ seg ++ post) with
+                 | Ok a, Ok b => a = b | Ok _, _ => False | _, Ok _ => False | _, _ => True end
+       | _ => is_ok (stream_entry msg_stream (pre ++ seg ++ post)) = false
+       end) /\
+    (forall pre seg post, seg <> [] ->
+       match stream_entry msglist_stream seg with
+       | Ok c => match stream_entry msglist_stream (pre ++ SVal c :: post), stream_entry msglist_stream (pre ++ seg ++ post) with
+                 | Ok a, Ok b => a = b | Ok _, _ => False | _, Ok _ => False | _, _ => True end
+       | _ => is_ok (stream_entry msglist_stream (pre ++ seg ++ post)) = false
+       end) /\
+    (forall pre seg post, seg <> [] ->
+       match stream_entry mmap_stream seg with
+       | Ok c => match stream_entry mmap_stream (pre ++ SVal c :: post), stream_entry mmap_stream (pre ++ seg ++ post) with
+                 | Ok a, Ok b => a = b | Ok _, _ => False | _, Ok _ => False | _, _ => True end
+       | _ => is_ok (stream_entry mmap_stream (pre ++ seg ++ post)) = false
+       end) /\
+    (forall pre seg post, seg <> [] ->
+       match stream_entry concat_stream_any seg with
+       | Ok c => match stream_entry concat_stream_any (pre ++ SVal c :: post), stream_entry concat_stream_any (pre ++ seg ++ post) with
+                 | Ok a, Ok b => a = b | Ok _, _ => False | _, Ok _ => False | _, _ => True end
+       | _ => is_ok (stream_entry concat_stream_any (pre ++ seg ++ post)) = false
+       end) /\
+    (forall t pre seg post, seg <> [] -> Forall (fun v => dyn_ty v = Some t) (svals (pre ++ seg ++ post)) ->
+       match stream_entry concat_stream seg with
+       | Ok c => match stream_entry concat_stream (pre ++ SVal c :: post), stream_entry concat_stream (pre ++ seg ++ post) with
+                 | Ok a, Ok b => a = b | Ok _, _ => False | _, Ok _ => False | _, _ => True end
+       | _ => is_ok (stream_entry concat_stream (pre ++ seg ++ post)) = false
+       end).
+Proof.
+  intros U L LS. split; [exact msg_items_segment|]. split; [exact msglist_items_segment|].
+  split; [exact mmap_items_segment|]. split; [exact any_items_segment|exact gen_items_segment].
+Qed.
+Print Assumptions stream_items_segment.
+
+Example stream_items_nonvacuous :
+  stream_entry msg_stream [SVal (Some ex_m1); SErr; SVal (Some ex_m2)] = Err E_READ /\
+  stream_entry msg_stream [SErr] = Err E_READ /\
+  stream_entry msg_stream [SVal (Some ex_m1)] = Ok (Some ex_m1) /\
+  (exists c, stream_entry msg_stream [SVal (Some ex_m2); SVal (Some ex_m3)] = Ok c /\
+     stream_entry msg_stream [SVal (Some ex_m1); SVal c; SErr] = Err E_READ /\
+     stream_entry msg_stream [SVal (Some ex_m1); SVal c] = stream_entry msg_stream [SVal (Some ex_m1); SVal (Some ex_m2); SVal (Some ex_m3)]) /\
+  stream_entry concat_stream [SVal (CStr "a"); SVal (CStr "b")] = Ok (CStr "ab") /\
+  stream_entry concat_stream [SVal (CStr "a"); SVal (CStr "b"); SErr] = Err E_READ.
+Proof.
+  split; [reflexivity|]. split; [reflexivity|]. split; [reflexivity|]. split.
+  - eexists. split; [vm_compute; reflexivity|]. split; vm_compute; reflexivity.
+  - split; vm_compute; reflexivity.
+Qed.
+
+(* A function registered for an interface type (the harness registers one for its type Num,
+   tag 9 of the registry instance): ConcatItems hands the chunks to it whatever their dynamic
+   types are (and does not fall back to concatenation by dynamic type). *)
+Example registered_interface_type_nonvacuous :
+  concat_stream [COther 9 1; COther 9 0; COther 9 4] = Ok (COther 9 5) /\
+  concat_stream [COther 9 0; COther 9 0] = Ok (COther 9 0) /\
+  concat_stream [COther 9 3] = Ok (COther 9 3).
+Proof. repeat split; vm_compute; reflexivity. Qed.
